@@ -273,6 +273,14 @@ def check(ctx):
             p = g.path(g.nodes_of_bb(tb), [loop_head])
             rets = [b.idx for b in task.blocks if b.term.kind == "return" and not b.cleanup]
             q = g.path(g.nodes_of_bb(tb), rets, cut_nodes=[loop_head])
+            # a watch error carries no information about which servers exist: the cache is not touched on that path
+            reach_e = set(g.bb(n) for n in g.reachable(g.nodes_of_bb(tb), cut_nodes=[loop_head]))
+            touched = [(cname(t2) or dname(t2)).split("::")[-1] for b2, t2 in task.calls() if b2 in reach_e and not task.is_noise(t2)
+                       and (cname(t2) or dname(t2)).split("::")[-1] in ("write", "blocking_write", "try_write", "clear", "retain", "push", "swap_remove", "remove", "truncate", "drain")]
+            ctx.check(not touched, RC, "C20/continues-after-error/error-keeps-cache", site(task, tb),
+                      reason="on a watch error the task modifies the cache (%s): the watcher resumes without replaying unchanged servers, so healthy Ready/Allocated "
+                             "servers stop being offered until they happen to change" % sorted(set(touched)),
+                      detail="the error arm leaves the cache as it is")
             ctx.check(p is not None and q is None, RC, "C20/continues-after-error/loops", site(task, tb),
                       reason="a watch-stream error ends the watcher task (the cache would freeze)", detail="stream error -> next iteration")
 
